@@ -2777,6 +2777,7 @@ var verifPreloadSkels = []struct {
 	{"attr-reader-never-assigned", []string{"class Hoge\nattr_reader :hog\nattr_accessor :acc\nend\n", "w = Sym.a\n", "h = Hoge.new\nh.hog\ndbtp h.acc\ndbtp w\n"}},
 	{"uninferred-parameter", []string{"def test(x)\np x\nend\n", "w = Sym.a\n", "test(1, 2)\ntest(k: 1)\ndbtp w\n"}},
 	{"instance-variable-and-constant", []string{"class Cc\nLIMIT = 3\ndef initialize(v)\n@v = v\nend\ndef get\n@v\nend\nend\n", "c = Cc.new(Sym.a)\n", "dbtp c.get\ndbtp Cc::LIMIT\nd = Cc.new(1.5)\ndbtp d.get\n"}},
+	{"variable-reassigned-and-method-redefined-across-chunks", []string{"lim = 10\ndef label\n1\nend\n", "lim = Sym.a\ndef label\n\"s\"\nend\n", "dbtp lim\ndbtp label\nlim.upcase\nlim + 1\n"}},
 	{"module-mixin", []string{"module Mm\ndef mix\n1\nend\nend\n", "class Dd\ninclude Mm\ndef own(a)\na\nend\nend\n", "d = Dd.new\ndbtp d.mix\ndbtp d.own(Sym.a)\nd.own\n"}},
 }
 
@@ -2785,7 +2786,11 @@ var verifPreloadSkels = []struct {
 // the target's lines (rows rebased), and no line may name a preload file.
 func VerifPreload(n int) {
 	sk := verifPreloadSkels[verifapi.Concrete(verifapi.Int("skeleton", 0, len(verifPreloadSkels)-1))]
-	split := verifapi.Concrete(verifapi.Int("split", 0, 2)) // 0: [c0] | c1+c2 ; 1: [c0+c1] | c2 ; 2: [c0],[c1] | c2
+	split := verifapi.Concrete(verifapi.Int("split", 0, 3)) // 0: [c0] | c1+c2 ; 1: [c0+c1] | c2 ; 2: [c0],[c1] | c2 ; 3: as 2, file names not in sorted order
+	n0, n1 := "p0.rb", "p1.rb"
+	if split == 3 {
+		n0, n1 = "zz_first.rb", "aa_second.rb"
+	}
 	withI := verifapi.Concrete(verifapi.Int("dash_i", 0, 1))
 	flags := cmd.NewExecuteFlags()
 	if withI == 1 {
@@ -2801,7 +2806,7 @@ func VerifPreload(n int) {
 		pre, target = []string{sk.chunks[0]}, sk.chunks[1]+sk.chunks[2]
 	case 1:
 		pre, target = []string{sk.chunks[0] + sk.chunks[1]}, sk.chunks[2]
-	case 2:
+	case 2, 3:
 		pre, target = []string{sk.chunks[0], sk.chunks[1]}, sk.chunks[2]
 	}
 	whole := ""
@@ -2813,25 +2818,27 @@ func VerifPreload(n int) {
 	verifapi.Witness("whole", whole)
 	verifapi.Witness("target", target)
 	verifapi.Witness("pre0", pre[0])
-	loaderJSON := "{\"preload\": [\"p0.rb\"]}"
+	loaderJSON := "{\"preload\": [\"" + n0 + "\"]}"
 	if len(pre) == 2 {
 		verifapi.Witness("pre1", pre[1])
-		loaderJSON = "{\"preload\": [\"p0.rb\", \"p1.rb\"]}"
+		loaderJSON = "{\"preload\": [\"" + n0 + "\", \"" + n1 + "\"]}"
 	}
+	verifapi.Witness("C18.name0", n0)
+	verifapi.Witness("C18.name1", n1)
 	verifapi.Witness("C18.prelines", verifItoa(preLines))
 	mark := verifapi.Snapshot()
 	outWhole := verifRunFlags(whole, flags, 0)
 	verifapi.Restore(mark)
 	verifapi.SetFile(".ti-loader.json", loaderJSON)
-	verifapi.SetFile("p0.rb", pre[0])
+	verifapi.SetFile(n0, pre[0])
 	if len(pre) == 2 {
-		verifapi.SetFile("p1.rb", pre[1])
+		verifapi.SetFile(n1, pre[1])
 	}
 	outSplit := verifRunFlags(target, flags, 0)
 	verifapi.Reach("ran")
-	shape := sk.name + "/" + []string{"one-preload-file-short", "one-preload-file-long", "two-preload-files"}[split] + []string{"", "/with-i"}[withI]
+	shape := sk.name + "/" + []string{"one-preload-file-short", "one-preload-file-long", "two-preload-files", "two-preload-files-named-out-of-sorted-order"}[split] + []string{"", "/with-i"}[withI]
 	verifapi.Classify("C18/output-names-a-preload-file/" + shape)
-	verifapi.Assert(!strings.Contains(outSplit, "p0.rb") && !strings.Contains(outSplit, "p1.rb"), "C18-hidden")
+	verifapi.Assert(!strings.Contains(outSplit, n0) && !strings.Contains(outSplit, n1), "C18-hidden")
 	verifapi.Classify("C18/output-differs-from-concatenation-restricted-to-target/" + shape)
 	verifapi.Assert(outSplit == verifDropShift(outWhole, 1, preLines), "C18-prefix")
 }
